@@ -45,6 +45,23 @@ class C02(Prop):
         names = lang.variables(f) or [c.vars[0]]
         case = {'formula': f, 'data': lang.gen_trace(rng, names, n),
                 'online_kind': rng.choice(['dt', 'dt', 'dt_on'])}
+        if rng.random() < 0.03:
+            # a wide window (13..200 samples) on a trace longer than it: samples slide out of the window, spikes sit on
+            # the sample that has just expired, equal extrema occur several times
+            N, V, C = lang.N, lang.V, lang.C
+            w = lang.wide_width(rng)
+            a = rng.choice([0, 0, 2, 7])
+            o = rng.choice(['once', 'historically'])
+            opd = rng.choice([V('x'), N('geq', V('x'), C(1.0)), N('sub', V('x'), C(2.0))])
+            f = N(o, opd, ivl=(a, a + w))
+            if rng.random() < 0.4:
+                f = N(rng.choice(['and', 'or']), f, N('once', N('leq', V('x'), C(0.0)), ivl=(0, 3)))
+            n = a + w + rng.randint(5, 60)
+            xs = lang.gen_values(rng, n, rng.choice(['tiny', 'steps', 'spiky']))
+            for i in rng.sample(range(n), 3):
+                xs[i] = rng.choice([100.0, -100.0])
+            xs[0] = rng.choice([100.0, -100.0, xs[0]])
+            case.update({'formula': f, 'data': {'x': xs}, 'wide_long': True})
         if rng.random() < 0.12:
             # an interface-aware semantics with a random io assignment on both monitors; small-integer data, so that
             # values sit on the thresholds of strict and non-strict comparisons
@@ -60,6 +77,8 @@ class C02(Prop):
     def judge(self, case):
         v = Verdict()
         f, data = case['formula'], case['data']
+        if case.get('wide_long'):
+            v.info['class:wide-window-on-a-longer-trace'] = 1
         names = sorted(data)
         n = len(data[names[0]])
         text = lang.to_text(f)
